@@ -149,11 +149,25 @@ void emit_result(int status, const char* cls, const char* site, const char* msg)
   write_all(G.out_fd, out.data(), out.size());
 }
 
+// While a harness executes a call whose failure it can attribute to one listed,
+// unrepaired defect (sim::fail_context), every violation raised by *this thread*
+// is reported under that defect's class/site, with the original classification
+// kept in the message; violations of other threads are unaffected.
+static __thread const char* tl_ctx_cls = nullptr;
+static __thread const char* tl_ctx_site = nullptr;
+void set_fail_context(const char* cls, const char* site) { tl_ctx_cls = cls; tl_ctx_site = site; }
+
 [[noreturn]] void finish(int status, const char* cls, const char* site,
                          const char* msg) {
   if (G.finishing) _exit(0);
   G.finishing = true;
   G.active = false;  // anything we do from here on is pass-through
+  if (status == 1 && tl_ctx_cls && tl_ctx_site) {
+    static char buf[1400];
+    snprintf(buf, sizeof buf, "[%s/%s] %s", cls, site, msg);
+    emit_result(status, tl_ctx_cls, tl_ctx_site, buf);
+    _exit(0);
+  }
   emit_result(status, cls, site, msg);
   _exit(0);
 }
@@ -586,6 +600,7 @@ void fail(const char* cls, const char* site, const char* fmt, ...) {
   finish(1, cls, site, buf);
 }
 void skip(const char* why) { finish(2, "skip", why, why); }
+void fail_context(const char* cls, const char* site) { rt::set_fail_context(cls, site); }
 void probe(const char* name, uint64_t n) { if (G.active) G.probes[name] += n; }
 void fault_fired(const char* name, uint64_t n) { if (G.active) G.faultc[name] += n; }
 uint64_t stamp() { return G.steps; }
